@@ -278,9 +278,13 @@ func (c *Checker) evaluate(o evalOpts) (*RunResult, []Violation, error) {
 			c.note(note)
 		}
 	}
-	if o.Build.Cfg.Race && (c.Prop == "C08" || c.Prop == "C16") {
+	if o.Build.Cfg.Race && (c.Prop == "C08" || c.Prop == "C16" || c.Prop == "C17") {
 		for _, r := range rr.Races {
 			if !r.InFrugal {
+				continue
+			}
+			if c.Prop == "C17" && !raceThroughLegacyControl(r) {
+				c.note("NOTE out-of-scope for C17: data race that does not involve a legacy control: " + raceSig(r))
 				continue
 			}
 			if c.Prop == "C16" && !raceOnHarnessMemory(r) {
@@ -314,6 +318,18 @@ func (c *Checker) childTimeout() time.Duration {
 		return 240 * time.Second
 	}
 	return 75 * time.Second
+}
+
+// raceThroughLegacyControl: one of the two racing accesses was made on behalf of a legacy JIT control.
+func raceThroughLegacyControl(r RaceReport) bool {
+	for _, f := range r.TopFrames {
+		switch {
+		case strings.HasSuffix(f, "frugal.Pretouch"), strings.HasSuffix(f, "frugal.NoJIT"), strings.Contains(f, "frugal.SetMaxInline"),
+			strings.Contains(f, "frugal.WithMax"), strings.HasSuffix(f, "frugal/debug.GetStats"), strings.Contains(f, "frugal/internal/opts."):
+			return true
+		}
+	}
+	return false
 }
 
 // raceOnHarnessMemory: the racy location was allocated by the harness (argument values, input buffers), not by frugal.
